@@ -20,7 +20,8 @@ import (
 
 // QOp is one queue operation of a C20 scenario.
 type QOp struct {
-	Op string `json:"op"` // enq deq deqall requeue depth
+	Op    string `json:"op"`              // enq deq deqall requeue depth
+	Empty bool   `json:"empty,omitempty"` // enq: an empty chunk
 }
 
 // C20 scenario: one producer and one consumer on the real util.Queue.
@@ -68,7 +69,7 @@ func genC20(seed uint64, run int, tier string) Scenario {
 	n := between(r, 4, 14)
 	np := between(r, 1, n-1)
 	for i := 0; i < np; i++ {
-		sc.Prod = append(sc.Prod, QOp{Op: "enq"})
+		sc.Prod = append(sc.Prod, QOp{Op: "enq", Empty: r.IntN(8) == 0})
 	}
 	for i := 0; i < n-np; i++ {
 		sc.Cons = append(sc.Cons, QOp{Op: pick(r, "deq", "deq", "deq", "deqall", "requeue", "requeue2", "depth")})
@@ -92,10 +93,11 @@ type qOut struct {
 var qModel = porcupine.Model{
 	Init: func() interface{} { return "" },
 	Step: func(state, input, output interface{}) (bool, interface{}) {
+		// state: every chunk preceded by \x01 (so that empty chunks count)
 		st := state.(string)
 		var l []string
 		if st != "" {
-			l = strings.Split(st, "\x00")
+			l = strings.Split(st[1:], "\x01")
 		}
 		in := input.(qIn)
 		out := output.(qOut)
@@ -108,7 +110,7 @@ var qModel = porcupine.Model{
 			if len(l) == 0 {
 				return out.Nil, st
 			}
-			if out.Nil || out.V != l[0] {
+			if out.V != l[0] || out.Nil && l[0] != "" {
 				return false, st
 			}
 			l = l[1:]
@@ -116,7 +118,7 @@ var qModel = porcupine.Model{
 			if len(l) == 0 {
 				return out.Nil, st
 			}
-			if out.Nil || out.V != strings.Join(l, "") {
+			if all := strings.Join(l, ""); out.V != all || out.Nil && all != "" {
 				return false, st
 			}
 			l = nil
@@ -126,7 +128,12 @@ var qModel = porcupine.Model{
 			}
 		}
 
-		return true, strings.Join(l, "\x00")
+		enc := ""
+		for _, c := range l {
+			enc += "\x01" + c
+		}
+
+		return true, enc
 	},
 	Equal: func(a, b interface{}) bool { return a.(string) == b.(string) },
 	DescribeOperation: func(input, output interface{}) string {
@@ -170,6 +177,9 @@ func runC20(env *Env, s Scenario) {
 		for rep := 0; rep < reps; rep++ {
 			for i := range sc.Prod {
 				v := fmt.Sprintf("<p%d.%d>", rep, i)
+				if sc.Prod[i].Empty {
+					v = ""
+				}
 				yield("c20.prod")
 				call := seq.Add(1)
 				q.Enqueue([]byte(v))
@@ -404,7 +414,9 @@ func runC20Long(env *Env, sc *C20) {
 
 // runC20Seq runs every sequential history up to length n against the list model.
 func runC20Seq(env *Env, sc *C20) {
-	alphabet := []string{"enq", "deq", "deqall", "requeue", "depth"}
+	// "enq0" enqueues an empty chunk (the read loop produces one from a read that held nothing but
+	// carriage returns): it counts for the depth and comes out as an empty, non-nil result
+	alphabet := []string{"enq", "enq0", "deq", "deqall", "requeue", "depth"}
 	count := 0
 	var rec func(prefix []string)
 	check := func(ops []string) {
@@ -421,6 +433,9 @@ func runC20Seq(env *Env, sc *C20) {
 				v := fmt.Sprintf("<%d>", id)
 				q.Enqueue([]byte(v))
 				model = append(model, v)
+			case "enq0":
+				q.Enqueue([]byte{})
+				model = append(model, "")
 			case "requeue":
 				v := "<r>"
 				if hasLast {
@@ -448,6 +463,7 @@ func runC20Seq(env *Env, sc *C20) {
 			case "deqall":
 				b := q.DequeueAll()
 				want := strings.Join(model, "")
+				// (a drain that holds nothing but empty chunks may come out as nil or as empty)
 				if len(model) == 0 && b != nil || string(b) != want {
 					env.Fail("sequential-mismatch", "", "history %v step %d: dequeue-all returned %q, reference %q", ops, i, b, want)
 
